@@ -281,3 +281,47 @@ pub fn c07_frontends(ctx: &mut Ctx, acc: &mut Acc) {
     ctx.require(acc.get("cli:placed") > 0 && acc.get("mcp:explained") > 0, "front-end sweeps produced no positive case");
     ctx.alphabets.push(json!({"name": "frontends", "description": "cgt-tool report --year (own year and neighbouring year) for 5 and 6 April of every year 1900..2101; MCP calculate_report + explain_matching for the same dates and every day 2023-04-01..2024-04-10", "dates": dates.len()}));
 }
+
+/// C18: `cgt-tool convert schwab` (stdout and --output) agrees with the library conversion and its output feeds
+/// `cgt-tool report`.
+pub fn c18_cli(ctx: &mut Ctx, acc: &mut Acc) {
+    need_tool();
+    use cgt_converter::BrokerConverter;
+    use cgt_converter::schwab::{SchwabConverter, SchwabInput};
+    let exports = [
+        r#"{"BrokerageTransactions":[{"Date":"01/10/2024","Action":"Buy","Symbol":"X","Description":"b","Quantity":"10","Price":"$100.50","Fees & Comm":"$1.00","Amount":""},{"Date":"02/20/2024","Action":"Sell","Symbol":"X","Description":"s","Quantity":"4","Price":"$110","Fees & Comm":"","Amount":""},{"Date":"01/10/2024","Action":"Foo","Symbol":"X","Description":"a\n2024-01-01 BUY EVIL 1 @ 1","Quantity":"","Price":"","Fees & Comm":"","Amount":""}]}"#,
+        r#"{"BrokerageTransactions":[{"Date":"01/12/2024","Action":"Stock Plan Activity","Symbol":"X","Description":"r","Quantity":"10","Price":"","Fees & Comm":"","Amount":""},{"Date":"01/10/2024","Action":"Cash Dividend","Symbol":"X","Description":"d","Quantity":"","Price":"","Fees & Comm":"","Amount":"$5.00"},{"Date":"01/10/2024","Action":"NRA Withholding","Symbol":"X","Description":"t","Quantity":"","Price":"","Fees & Comm":"","Amount":"-$0.75"}]}"#,
+    ];
+    let awards = r#"{"Transactions":[{"Date":"01/14/2024","Action":"Deposit","Symbol":"X","TransactionDetails":[{"Details":{"VestDate":"01/12/2024","VestFairMarketValue":"$99.50"}}]}]}"#;
+    let strip = |s: &str| s.lines().filter(|l| !l.starts_with("# Converted:")).collect::<Vec<_>>().join("\n");
+    for (i, e) in exports.iter().enumerate() {
+        let sc = Scratch::new();
+        sc.all_years_config();
+        sc.write("tx.json", e.as_bytes());
+        sc.write("aw.json", awards.as_bytes());
+        let lib = SchwabConverter::new().convert(&SchwabInput { transactions_json: e.to_string(), awards_json: Some(awards.to_string()) });
+        let o1 = run_tool(&["convert", "schwab", "tx.json", "--awards", "aw.json"], &sc, T);
+        let o2 = run_tool(&["convert", "schwab", "tx.json", "--awards", "aw.json", "--output", "out.cgt"], &sc, T);
+        acc.states += 2;
+        acc.validated += 2;
+        acc.bump("cli:convert");
+        let input = json!({"export": serde_json::from_str::<Value>(e).unwrap_or(Value::Null), "case": i});
+        let push = |acc: &mut Acc, clause: &str, detail: String| acc.violation(&ctx.findings, "C18", viol(clause, input.clone(), detail, json!({"profile": "cli"})));
+        let Ok(lib) = lib else {
+            push(acc, "well-formed-export-refused", "library conversion failed".into());
+            continue;
+        };
+        if !o1.ok() || !o2.ok() {
+            push(acc, "cli-convert-fails", format!("exit {:?}/{:?}: {}", o1.code, o2.code, o1.err()));
+            continue;
+        }
+        let file = std::fs::read_to_string(sc.path("out.cgt")).unwrap_or_default();
+        if strip(o1.out().trim_end()) != strip(&lib.cgt_content) || strip(&file) != strip(&lib.cgt_content) {
+            push(acc, "cli-convert-differs", "CLI conversion output differs from the library's".into());
+        }
+        let r = run_tool(&["report", "out.cgt", "--format", "json"], &sc, T);
+        if !r.ok() {
+            push(acc, "converted-output-not-reportable", format!("cgt-tool report on the converted file fails: {}", r.err().chars().take(300).collect::<String>()));
+        }
+    }
+}
